@@ -140,6 +140,11 @@ impl SendRequest<RequestMessage<Vec<u8>>> for Up {
                 if kind == "nxdomain" {
                     rcode = 3;
                 }
+                if marker % 3 != 1 {
+                    // name servers listed ahead of the SOA: still a negative answer, not a referral
+                    authority.push((b"\x04test\x00".to_vec(), T_NS, ttl1.saturating_add(100), b"\x02ns\x04test\x00".to_vec()));
+                    authority.push((b"\x04test\x00".to_vec(), T_NS, ttl1.saturating_add(100), b"\x03ns2\x04test\x00".to_vec()));
+                }
                 authority.push((b"\x04test\x00".to_vec(), T_SOA, ttl1, soa_rdata(marker, ttl2)));
                 if dnssec_ok {
                     authority.push((b"\x04test\x00".to_vec(), T_RRSIG, ttl1, rrsig_rdata(T_SOA, marker)));
